@@ -585,6 +585,9 @@ type orderSpec struct {
 	Second []string `json:"second_submissions"`
 	Cancel []bool   `json:"cancel"` // cancel the task while it is waiting
 	HoldMS int      `json:"hold_ms"`
+	// Inside: the first run of the task's function submits the task again (queue | prioritize | asap): a submission like
+	// any other, made at that moment - behind everything that waits in that queue already (asap: next to start).
+	Inside []string `json:"resubmits_itself_while_running,omitempty"`
 }
 
 func TestPropQueueOrder(t *testing.T) {
@@ -596,6 +599,7 @@ func TestPropQueueOrder(t *testing.T) {
 			o.Kinds = append(o.Kinds, rapid.SampledFrom([]string{"queue", "queue", "prioritize", "prioritize", "asap"}).Draw(t, "kind"))
 			o.Cancel = append(o.Cancel, rapid.IntRange(0, 5).Draw(t, "cancel") == 0)
 			o.Second = append(o.Second, rapid.SampledFrom([]string{"", "", "", "asap", "asap", "prioritize", "queue"}).Draw(t, "second"))
+			o.Inside = append(o.Inside, rapid.SampledFrom([]string{"", "", "", "", "", "queue", "queue", "prioritize", "asap"}).Draw(t, "inside"))
 		}
 		casePrefix.Store(prefix)
 		r := &recorder{tasks: map[string]*modules.Task{}}
@@ -621,13 +625,18 @@ func TestPropQueueOrder(t *testing.T) {
 		var running int32
 		var overlap int32
 		tasks := make([]*modules.Task, n)
+		runs := make([]int32, n)
 		for i := 0; i < n; i++ {
+			i := i
 			name := fmt.Sprintf("%sb%d", prefix, i)
-			tasks[i] = m.NewTask(name, func(ctx context.Context, _ *modules.Task) error {
+			tasks[i] = m.NewTask(name, func(ctx context.Context, tk *modules.Task) error {
 				if atomic.AddInt32(&running, 1) > 1 {
 					atomic.AddInt32(&overlap, 1)
 				}
 				r.rec("begin", name, "")
+				if atomic.AddInt32(&runs[i], 1) == 1 && o.Inside[i] != "" {
+					r.apply(tk, name, o.Inside[i], "inside")
+				}
 				time.Sleep(time.Duration(o.HoldMS) * time.Millisecond)
 				r.rec("end", name, "")
 				atomic.AddInt32(&running, -1)
@@ -679,20 +688,50 @@ func TestPropQueueOrder(t *testing.T) {
 				}
 			}
 		}
-		var want []string
+		var asapQ, prioQ, normalQ []int
 		for idx := len(subs) - 1; idx >= 0; idx-- {
 			if i := subs[idx].task; lastASAP[i] == idx && !o.Cancel[i] {
-				want = append(want, fmt.Sprintf("%sb%d", prefix, i))
+				asapQ = append(asapQ, i)
 			}
 		}
 		for idx := range subs {
 			if i := subs[idx].task; lastASAP[i] < 0 && firstPrio[i] == idx && !o.Cancel[i] {
-				want = append(want, fmt.Sprintf("%sb%d", prefix, i))
+				prioQ = append(prioQ, i)
 			}
 		}
 		for idx := range subs {
 			if i := subs[idx].task; lastASAP[i] < 0 && firstPrio[i] < 0 && firstQueue[i] == idx && !o.Cancel[i] {
-				want = append(want, fmt.Sprintf("%sb%d", prefix, i))
+				normalQ = append(normalQ, i)
+			}
+		}
+		// the queues are served one task at a time; a task that submits itself again while it runs joins the waiting ones
+		var want []string
+		ran := make([]bool, n)
+		resubmittedInside := 0
+		for len(asapQ)+len(prioQ)+len(normalQ) > 0 {
+			var i int
+			switch {
+			case len(asapQ) > 0:
+				i, asapQ = asapQ[0], asapQ[1:]
+			case len(prioQ) > 0:
+				i, prioQ = prioQ[0], prioQ[1:]
+			default:
+				i, normalQ = normalQ[0], normalQ[1:]
+			}
+			want = append(want, fmt.Sprintf("%sb%d", prefix, i))
+			if !ran[i] {
+				ran[i] = true
+				switch o.Inside[i] {
+				case "asap":
+					asapQ = append([]int{i}, asapQ...)
+					resubmittedInside++
+				case "prioritize":
+					prioQ = append(prioQ, i)
+					resubmittedInside++
+				case "queue":
+					normalQ = append(normalQ, i)
+					resubmittedInside++
+				}
 			}
 		}
 		close(gate)
@@ -761,6 +800,9 @@ func TestPropQueueOrder(t *testing.T) {
 		}
 		if nc > 0 {
 			cls = append(cls, "order_with_cancel")
+		}
+		if resubmittedInside > 0 {
+			cls = append(cls, "order_task_submitted_itself_again_while_running")
 		}
 		stats.Case(fmt.Sprintf("order %+v", *o), n >= 3, cls...)
 		if stats.WantSample("order") {
